@@ -54,6 +54,8 @@ type State struct {
 	labelN  map[string]int
 	ghost   map[string]Value
 	ufApps  []*UFApp
+	gs      []*Goroutine // goroutines (nil until the first go statement / channel operation)
+	cur     int
 }
 
 type Input struct {
@@ -116,6 +118,11 @@ func (st *State) clone() *State {
 		return &g
 	}
 	n.fr = cp(st.fr)
+	if st.gs != nil {
+		n.cur = st.cur
+		n.gs = cloneGs(st.gs, cp, st.cur)
+		n.gs[n.cur].fr = n.fr
+	}
 	return n
 }
 
